@@ -506,7 +506,7 @@ func (a *API) WalkOp(name string, nReplies int) ([]OpPath, *Walker, error) {
 func (w *Walker) walkOne(fn *ssa.Function, args []*Term) Path {
 	w.pos = 0
 	w.alts = w.alts[:0]
-	w.state = newPathState()
+	w.state = w.initialState()
 	w.events = nil
 	w.decisions = nil
 	w.cellN = 0
